@@ -25,6 +25,8 @@ pub(crate) fn small(w: u32, base_id: u32, max_alloc_ceil: usize) -> PacketSender
     }
 }
 
+pub(crate) fn real_alloc_size(n: usize) -> usize { alloc_size(n) }
+
 pub(crate) fn any_mode() -> SendMode {
     let m: u8 = kani::any();
     kani::assume(m < 4);
@@ -194,13 +196,7 @@ fn o6_3_window_limit_and_reopen() {
     std::mem::forget(r0); std::mem::forget(r1); std::mem::forget(r3); std::mem::forget(s);
 }
 
-//@h props=C03,C20,C06 tier=quick timeout=900 role=sender-ack-hostile
-//@fn PacketSender::acknowledge (reached from HalfConnection::handle_ack_frame with the peer's packet_window_base_id)
-//@bound W=4, base 2^20-2 (window spans the wrap), two emitted 1-byte/2-byte packets; acknowledged id = any u32
-#[kani::proof]
-#[kani::unwind(6)]
-fn o3_3_acknowledge_any_u32() {
-    let base = 0xFFFFE;
+fn ack_script(base: u32) -> (PacketSender, Option<(PendingPacketRc, bool)>, Option<(PendingPacketRc, bool)>) {
     let mut s = small(4, base, 1448 * 8);
     let fid: u32 = kani::any();
     s.enqueue_packet(Box::new([1]), 0, any_mode(), fid);
@@ -208,17 +204,40 @@ fn o3_3_acknowledge_any_u32() {
     let r0 = s.emit_packet(fid);
     let r1 = s.emit_packet(fid);
     assert!(r0.is_some() && r1.is_some());
+    (s, r0, r1)
+}
+
+//@h props=C03,C15 tier=quick timeout=900 role=sender-ack-hostile
+//@fn PacketSender::acknowledge (reached from HalfConnection::handle_ack_frame with the peer's packet_window_base_id)
+//@bound W=4, base 2^20-2 (window spans the wrap), two emitted packets; acknowledged id = ANY u32 that is not a valid 20-bit id
+#[kani::proof]
+#[kani::unwind(6)]
+fn o3_3_acknowledge_invalid_id() {
+    let base = 0xFFFFE;
+    let (mut s, r0, r1) = ack_script(base);
     let id: u32 = kani::any();
-    // every u32 can arrive in an ack frame: no panic, and only ids inside (base, next] move the base
+    kani::assume(!packet_id::is_valid(id));
+    s.acknowledge(id);
+    assert!(s.base_id() == base && s.next_id() == 0 && s.total_size() == 3 && s.alloc == 3, "[C03,C15] a window base that is not a packet id changes nothing");
+    std::mem::forget(r0); std::mem::forget(r1); std::mem::forget(s);
+}
+
+//@h props=C03,C20,C06,C15 tier=quick timeout=1500 role=sender-ack-valid
+//@fn PacketSender::acknowledge
+//@bound W=4, base 2^20-2, two emitted packets (1 and 2 bytes); acknowledged id = ANY valid 20-bit id
+#[kani::proof]
+#[kani::unwind(6)]
+fn o3_3_acknowledge_any_valid_id() {
+    let base = 0xFFFFE;
+    let (mut s, r0, r1) = ack_script(base);
+    let id: u32 = kani::any();
+    kani::assume(packet_id::is_valid(id));
     s.acknowledge(id);
     let nb = s.base_id();
     let d = packet_id::sub(nb, base);
     assert!(d <= 2 && s.next_id() == 0, "[C03,C06] base stays within [base, next]");
-    if packet_id::is_valid(id) && packet_id::sub(id, base) <= 2 {
-        assert!(nb == id);
-    } else {
-        assert!(nb == base, "[C03,C15] an id outside (base, next] (or not an id at all) changes nothing");
-    }
+    if packet_id::sub(id, base) <= 2 { assert!(nb == id); }
+    else { assert!(nb == base, "[C03,C15] an id outside (base, next] changes nothing"); }
     let expect = if d == 0 { 3 } else if d == 1 { 2 } else { 0 };
     assert!(s.total_size() == expect, "[C20] exactly the acknowledged packets leave the counter");
     assert!(s.alloc == expect, "[C06] allocation follows");
